@@ -477,6 +477,15 @@ pub fn run(args: &Args) -> ! {
         ("a*.b", 0), ("*a.", 0), ("[ab]", 0), ("a?b", 2), ("{a,b}.a", 0), ("**", 0), ("*", 2), ("a/**", 0),
         ("a/**/b", 2), ("?", 0), (".", 0), ("a.", 0), ("*.A", 1), ("b/a.", 0),
     ];
+    // A second pool: per multi-literal strategy (prefix, suffix, required
+    // extension, basename literal) a family of globs whose literals nest and
+    // overlap inside one another; all ordered pairs within the pool.
+    let pool2: Vec<(&str, usize)> = vec![
+        ("a*", 0), ("b*", 0), ("ab*", 0), ("ba*", 0), ("bab*", 0), ("aba*", 0), ("abb*", 0), ("a/*", 0),
+        ("a/**", 2), ("b/**", 2), ("ab/**", 2), ("b/a/**", 2), ("ab/a/**", 2), ("a/b/**", 2),
+        ("*a", 0), ("*ba", 0), ("*aba", 0), ("*/a", 0), ("*b/a", 0), ("**/a/b", 2), ("**/b/a/b", 2), ("**/b", 2), ("**/a/a/b", 2),
+        ("*.a", 0), ("*.b.a", 0), ("*a.a", 0), ("a*.a", 0), ("**/*.a", 2), ("**/a.a", 2), ("**/.a", 2),
+    ];
     let mut rows: Vec<Vec<u64>> = vec![];
     let mut row_id_of_matrix: Vec<Option<usize>> = vec![None; work];
     for (w, r) in matrix.into_iter().enumerate() {
@@ -489,6 +498,12 @@ pub fn run(args: &Args) -> ! {
     for (g, oi) in pool.iter() {
         let r = row_of(g, *oi, &paths).unwrap_or_else(|| machinery_error("C12: a pool glob does not build"));
         pool_rows.push(rows.len());
+        rows.push(r);
+    }
+    let mut pool2_rows = vec![];
+    for (g, oi) in pool2.iter() {
+        let r = row_of(g, *oi, &paths).unwrap_or_else(|| machinery_error("C12: a pool glob does not build"));
+        pool2_rows.push(rows.len());
         rows.push(r);
     }
     type Member = (String, usize, usize);
@@ -525,6 +540,16 @@ pub fn run(args: &Args) -> ! {
     for i in 0..pool.len() {
         for j in 0..pool.len() {
             sets.push((format!("pair/{}/{}", i, j), vec![pm(i), pm(j)]));
+        }
+    }
+    for i in 0..pool2.len() {
+        for j in 0..pool2.len() {
+            if i != j {
+                sets.push((
+                    format!("family-pair/{}/{}", pool2[i].0, pool2[j].0),
+                    vec![(pool2[i].0.to_string(), pool2[i].1, pool2_rows[i]), (pool2[j].0.to_string(), pool2[j].1, pool2_rows[j])],
+                ));
+            }
         }
     }
     if tier == Tier::Thorough {
@@ -592,6 +617,7 @@ pub fn run(args: &Args) -> ! {
                 }
             };
             let big = members.len() > 3;
+            let empty_set = globset::GlobSet::empty();
             let mut into = vec![];
             let mut want = vec![];
             let mut per_set = 0;
@@ -611,7 +637,13 @@ pub fn run(args: &Args) -> ! {
                 }
                 set.matches_into(os(p), &mut into);
                 let ism = set.is_match(os(p));
-                let ok = got == want && into == want && ism == !want.is_empty();
+                // the documented contract of matches_into: the buffer is cleared
+                // first, also by a set without globs
+                let mut reused = into.clone();
+                empty_set.matches_into(os(p), &mut reused);
+                let mut reused2 = into.clone();
+                empty_set.matches_candidate_into(&cand, &mut reused2);
+                let ok = got == want && into == want && ism == !want.is_empty() && reused.is_empty() && reused2.is_empty() && !empty_set.is_match(os(p));
                 if !ok && per_set < 3 && acc.disc_set.len() < 500 {
                     per_set += 1;
                     let (g, w): (Vec<usize>, Vec<usize>) = if big {
@@ -675,7 +707,7 @@ pub fn run(args: &Args) -> ! {
     ev.set(
         "rule",
         format!(
-            "layer 2: every token string of length <= {} over {:?} x 16 GlobBuilder option sets, matched against every path of length <= {} over {:?} (plus the same shapes with 0xFF for '-'), compared with an independent backtracking reference written from the documented syntax; layer 1: {} glob sets (every glob alone, one set of all globs for each of the option sets {:?}, one set mixing all 16 option sets, all ordered pairs{} over a 30-glob pool with several representatives per strategy) x the same paths, GlobSet::matches_candidate / matches_into / is_match compared with the answers of the member globs' own matchers. Non-trivial = the glob (or at least one member) matches the path; every (glob, options, path) and (set, path) is distinct by construction.",
+            "layer 2: every token string of length <= {} over {:?} x 16 GlobBuilder option sets, matched against every path of length <= {} over {:?} (plus the same shapes with 0xFF for '-'), compared with an independent backtracking reference written from the documented syntax; layer 1: {} glob sets (every glob alone, one set of all globs for each of the option sets {:?}, one set mixing all 16 option sets, all ordered pairs{} over a 30-glob pool with several representatives per strategy, all ordered pairs over a second 30-glob pool of prefix / suffix / extension / basename families whose literals nest inside one another; after every answer an empty set must clear the reused buffer) x the same paths, GlobSet::matches_candidate / matches_into / is_match compared with the answers of the member globs' own matchers. Non-trivial = the glob (or at least one member) matches the path; every (glob, options, path) and (set, path) is distinct by construction.",
             glen, GLOB_TOKENS, plen, std::str::from_utf8(PATH_BYTES).unwrap(), nsets, big_opts,
             if tier == Tier::Thorough { " and all triples" } else { "" },
         ),
